@@ -53,13 +53,13 @@ def fill(add):
         "Trusted: as C03. Continuation alphabet of 6 actions, depth 1 quick / 2 thorough.",
         "DESIGN.md 4/C04", "fsx+seqx")
     add("C07", "model_checking",
-        "stateless model checking of the implementation: preemption-bounded exhaustive schedule enumeration under a ptrace scheduler, serialisability oracle",
-        "2-3 real library processes (and, for curated pairs, threads of one process) are stopped at every file-system system call; all schedules up to the preemption bound (2 quick, 3 thorough for pairs, triples at 1-2, one unbounded writer pair) are executed; replies and final state must equal the model's result for some sequential order, and for serial schedules the order that ran.",
-        "Trusted: one file-system system call as the atomic step (the property's granularity); dictionary model. Schedules beyond the preemption bound are not covered.",
+        "stateless model checking of the implementation under a ptrace scheduler: unbounded schedule exploration with sleep-set partial-order reduction plus preemption-bounded exhaustive enumeration, serialisability oracle",
+        "2-3 real library processes (and, for curated pairs, threads of one process) are stopped at every file-system system call. Warm-cache pairs (and cold pairs without two writers): ALL interleavings, one execution per class of interleavings that differ only in the order of independent steps; the reduction is cross-checked in every run against brute force on short pairs (same results, same interleaving classes). Cold writer pairs, threads, triples on cold caches: all schedules up to a preemption bound (2 quick, 3 thorough). Replies and final state must equal the model's result for some sequential order, and for serial schedules the order that ran.",
+        "Trusted: one file-system system call as the atomic step (the property's granularity); dictionary model; the dependence relation of the reduction (DESIGN 9.5; validated against brute force). Bounded scenarios: schedules beyond the preemption bound are not covered.",
         "DESIGN.md 4/C07", "fsx")
     add("C13", "fault_enumeration",
         "exhaustive single (thorough: pairwise) fault injection at the system-call boundary of the real process (ptrace: syscall suppressed, -errno returned; short write then failure)",
-        "17 operations x 3 flavours on a warm cache: every file-system system call of the operation fails with every applicable errno, every write is answered short and then failed; each execution is judged: returns a value, Ok is truthful, bystanders intact, content area valid, operated key old or new, retry without faults succeeds and reaches the expected state.",
+        "22 operations (incl. link_to and writers that miss their declared size) x 3 flavours on a warm cache: every file-system system call of the operation fails with every applicable errno, every write is answered short and then failed; each execution is judged: returns a value, Ok is truthful, bystanders intact, content area valid, operated key old or new, retry without faults succeeds and reaches the expected state.",
         "Trusted: the errno applicability table (DESIGN 3.4); ptrace injection replaces the kernel's answer only (no kernel-side partial effects other than the modelled short write).",
         "DESIGN.md 4/C13", "fsx")
     add("C15", "exploration",
@@ -94,7 +94,7 @@ def fill(add):
         "DESIGN.md 4/C19", "seqx")
     add("C12", "model_checking",
         "differential lock-step exploration of the three implementations against each other (explicit-state, de-duplicated on state triples)",
-        "The tree of all programs up to the length bound (4 quick / 5 thorough) over 25 actions (writes with options, chunked, one-shot, by address, rejected commits, reads, streamed reads, extractions, removals, remove_fully, clear, listing, link_to, 5 damage steps) is executed on three caches by the sync, async-std and tokio builds; after every step the normalised replies and the decoded trees are compared. Mixed-flavour: every program up to length 3 over 11 actions x every flavour assignment on one shared cache, compared with the pure-sync run.",
+        "The tree of all programs up to the length bound (4 quick / 6 thorough; breadth-first, a state is expanded at the smallest depth it is reached at) over 34 actions (writes with options, chunked, one-shot, by address, rejected commits, empty value, late overflow, reads, streamed reads, extractions, re-link after in-place damage, removals, remove_fully, clear, listing, link_to, 7 damage steps) is executed on three caches by the sync, async-std and tokio builds; after every step the normalised replies and the decoded trees are compared. Mixed-flavour: every program up to length 3 over 12 actions x every flavour assignment on one shared cache, compared with the pure-sync run.",
         "Error messages are not compared (variant and io kind are); wall-clock and tombstone times normalised. By-address/unchecked hard links and reflink*_unchecked exist only as _sync calls.",
         "DESIGN.md 4/C12", "seqx")
     add("C20", "exploration",
